@@ -37,6 +37,8 @@ def emit(v, indent=0):
 
 
 def to_yaml(cfg):
+    if isinstance(cfg, Raw):
+        return cfg.text + "\n"
     lines = []
     for k, v in cfg.items():
         if isinstance(v, dict) and v and k in ("parameters", "services", "meta"):
